@@ -156,10 +156,10 @@ theorem releasedStateP_of_notAwaited {s : St} {id : Nat} (h : C11.NotAwaited s i
     unfold abandonExchange
     simp only []
     rw [if_neg (by rw [e3, e4]; exact fun x => x.1.elim h3 h4)]
-    rw [e1, e2, e3, e4, del_of_not_mem h1, del_of_not_mem h2, del_of_not_mem h3, del_of_not_mem h4]
-    conv => rhs; rw [← show ({ releasedState s id with suback := s.suback, unsuback := s.unsuback, puback := s.puback, pubrec := s.pubrec } : St) = releasedState s id from by
-      conv => rhs; rw [← show ({ releasedState s id with suback := (releasedState s id).suback, unsuback := (releasedState s id).unsuback, puback := (releasedState s id).puback, pubrec := (releasedState s id).pubrec } : St) = releasedState s id from rfl]
-      rw [e1, e2, e3, e4]]
+    rw [del_of_not_mem (l := (releasedState s id).suback) (by rw [e1]; exact h1),
+      del_of_not_mem (l := (releasedState s id).unsuback) (by rw [e2]; exact h2),
+      del_of_not_mem (l := (releasedState s id).puback) (by rw [e3]; exact h3),
+      del_of_not_mem (l := (releasedState s id).pubrec) (by rw [e4]; exact h4)]
   · unfold releasedState; rw [if_neg (by assumption)]
 
 /-- **C11, "as if the call had not been made".**  A refused `send` leaves the connection in the
